@@ -1,5 +1,5 @@
 """Obligations, verdicts, known findings, evidence files and the VIOLATION / KNOWN-FINDING protocol."""
-import json, os, time
+import json, os, re, time
 
 VERIF = os.path.dirname(os.path.dirname(os.path.abspath(__file__)))
 
@@ -31,6 +31,31 @@ class Ob:
         if self.witness is not None:
             d['witness'] = self.witness
         return d
+
+
+_SCC = re.compile(r'^scc\{(.*)\}$')
+
+
+def canon_desc(facts, fn, desc):
+    """Construct description with the names of the function's locals (and numbered temporaries) replaced by `$`, so that a
+    key recorded in assume.json / known_findings.json survives a rename of a variable.  Field names, callee names and
+    constants stay."""
+    b = facts.body(fn) if facts is not None and fn else None
+    if b is None and facts is not None and fn and not fn.startswith('<'):
+        b = facts.one(fn)
+    names = set()
+    if b is not None:
+        names = {n for n in b.names.values() if n}
+    out = re.sub(r"(?<![\w.:])_\d+\b'?", '$', desc)
+    if names:
+        alt = '|'.join(sorted((re.escape(n) for n in names), key=len, reverse=True))
+        out = re.sub(r"(?<![\w.:$])(?:%s)\b'?(?!\s*\()(?!::)" % alt, '$', out)
+    return out
+
+
+def scc_members(desc):
+    m = _SCC.match(desc)
+    return set(m.group(1).split(',')) if m else None
 
 
 class Run:
@@ -92,15 +117,62 @@ def load_known():
         return json.load(f)
 
 
+def ckey_of(run, rule, fn, desc):
+    return f"{rule}|{fn}|{canon_desc(run.facts, fn, desc)}"
+
+
+_BASE = None
+
+
+def baseline_functions():
+    global _BASE
+    if _BASE is None:
+        p = os.path.join(VERIF, 'baseline_functions.json')
+        _BASE = set(json.load(open(p))) if os.path.exists(p) else None
+        if _BASE is None:
+            _BASE = set()
+            _BASE.add('*')
+    return _BASE
+
+
+def match_known(run, o, known_active):
+    """Key of the known finding that this violation is, or None.  Exact key first; otherwise the same rule and function with
+    the same construct up to local-variable names; a recursion finding (construct scc{...}) is the same finding when the
+    cycle still contains a function of the recorded cycle (cycles are disjoint, so this identifies the cycle)."""
+    if o.key in known_active:
+        return o.key
+    mem = scc_members(o.desc)
+    for k, e in known_active.items():
+        kr, kf, kd, kn = k.split('|', 3) if k.count('|') >= 3 else (k, '', '', '')
+        if kr != o.rule:
+            continue
+        km = scc_members(kd)
+        if mem is not None and km is not None:
+            # same cycle if it still contains a recorded member and every member that was not recorded is a function
+            # that did not exist on the pinned tree (an extracted helper or a renamed member), i.e. no pre-existing
+            # function was newly pulled into the recursion
+            if mem & km and (mem <= km or ('*' not in baseline_functions() and not ((mem - km) & baseline_functions()))):
+                return k
+            continue
+        if kf == o.fn and e.get('cdesc') is not None and e['cdesc'] == canon_desc(run.facts, o.fn, o.desc) and str(o.n) == kn:
+            return k
+    return None
+
+
 def finish(run, level='other', explanation='', assumptions=(), extra=None, exhaustive=None):
     """Write evidence, print protocol lines, return exit code."""
     pid = run.pid
     known = [k for k in load_known() if k.get('property') == pid]
     known_active = {k['key']: k for k in known if k.get('status') == 'known'}
     viol = [o for o in run.obs if o.verdict == VIOLATION]
-    new = [o for o in viol if o.key not in known_active]
-    kn = [o for o in viol if o.key in known_active]
-    stale = [k for k in known_active if k not in {o.key for o in viol}]
+    matched = {}
+    for o in viol:
+        k = match_known(run, o, known_active)
+        if k is not None:
+            matched[id(o)] = k
+    new = [o for o in viol if id(o) not in matched]
+    kn = [o for o in viol if id(o) in matched]
+    stale = [k for k in known_active if k not in set(matched.values())]
 
     vdir = os.path.join(VERIF, 'evidence', 'violations', pid)
     os.makedirs(vdir, exist_ok=True)
@@ -117,7 +189,7 @@ def finish(run, level='other', explanation='', assumptions=(), extra=None, exhau
         lines.append(f"VIOLATION property={pid} replay={rp}")
         lines.append(f"  rule={o.rule} function={o.fn} at={o.loc}\n  construct: {o.desc}\n  reason: {o.why}")
     for o in kn:
-        lines.append(f"KNOWN-FINDING: property={pid} {known_active[o.key].get('what', o.desc)} [{o.key}]")
+        lines.append(f"KNOWN-FINDING: property={pid} {known_active[matched[id(o)]].get('what', o.desc)} [{matched[id(o)]}]")
 
     nontrivial_keys = {o.key for o in run.obs if o.nontrivial and o.verdict in (PROVED, ASSUMED, VIOLATION)}
     samples = []
